@@ -127,6 +127,11 @@ def run(ctx):
             else:
                 ctx.violation("C20.R4", "C20.R4/default-compression/%s/%s" % (dom, fmt), "%s writer builder defaults %s to %s, expected %s" % (dom, fmt, found.get(fmt), want))
 
+    ctx.rule("C20.R5", "A2 configuration plumbing: every option stored by a builder (generic and per-format) is read by some consumer")
+    R.option_plumbing_rule(ctx, "C20.R5", r"::[Bb]uilder$", 150, exceptions={
+        "noodles_bgzf::io::multithreaded_writer::builder::Builder.worker_count":
+            "set_worker_count is #[deprecated] and documented as ignored (the rayon pool is configured globally)"})
+
 
 def _table(fb, key):
     """(Format, Compression) -> (Inner variant | 'Err' | 'block', arm text) from the builder's tuple match."""
